@@ -31,16 +31,16 @@ def run(tier, seed):
               EX.ExcelModel.compile_cell, EX.ExcelModel.finish)
     ck.assume('the workbook is a real .xlsx file written by the harness with openpyxl (two sheets referring to each other, whole-column and whole-row references, a defined name, a two-cell array formula, cells reading its spilled cell alone or inside a larger rectangle, and a second workbook whose sheet has the same title but fewer used rows); two constants and the set of requested outputs are boolean selectors; every path loads the file twice (fully, and from the chosen outputs) and calculates natively',
               'completing and finishing the partial model again must leave its node set and its results unchanged')
-    ck.out_of_scope('output sets other than the listed ones (19 single outputs, 14 chosen combinations, and in the thorough tier a seeded sample up to 256 sets)', 'whole-column references beyond the few listed paths (the library assembles all 1048576 cells of the column: 10 s and several GB per model)', 'workbooks other than the harness template',
+    ck.out_of_scope('output sets other than the listed ones (20 single outputs, 15 chosen combinations, and in the thorough tier a seeded sample up to 256 sets)', 'whole-column references beyond the few listed paths (the library assembles all 1048576 cells of the column: 10 s and several GB per model)', 'workbooks other than the harness template',
                     'symbolic contents (openpyxl / schedula cannot carry symbolic values)')
     ck.check_known_witness('C15-defined-name-as-requested-output', NAME_WITNESS)
     quick = tier == 'quick'
     src = open(os.path.join(ROOT, 'harness', 'c15_ranges.py')).read()
-    nout = 19
+    nout = 20
     ORDER = 1 << nout                      # bit 15: the request is made in reverse order
     masks = [1 << b for b in range(nout)]
     masks += [3, 96, 640, 1025, 45, (1 << nout) - 1, ((1 << nout) - 1) | ORDER, (3 << 13) | 2 | ORDER, (3 << 13) | 2,
-              (1 << 12) | (1 << 10), (1 << 11) | 16 | ORDER, (1 << 16) | (1 << 17) | ORDER, (1 << 15) | (1 << 16), (1 << 18) | 1]
+              (1 << 12) | (1 << 10), (1 << 11) | 16 | ORDER, (1 << 16) | (1 << 17) | ORDER, (1 << 15) | (1 << 16), (1 << 18) | 1, (1 << 19) | 8 | ORDER]
     if not quick:
         import random
         rnd = random.Random(seed)
@@ -59,7 +59,7 @@ def run(tier, seed):
                 s = src.replace('__FIX_A__', str(a)).replace('__MASKS__', repr(mg)).replace('__WHOLE__', 'row')
                 h = Harness(ck, 'c15_ranges_a%d_g%d' % (a, g), s); hs.append(h)
                 batch.add(h, 600 if quick else 3000, only=['ranges_ok'], ppt=200,
-                          bounds='whole-ROW references; DATA!A1 = pool value #%d, DATA!A2 any of 8 pool values, %d of the %d listed output sets (of 19 formula outputs in two workbooks, either request order)' % (
+                          bounds='whole-ROW references; DATA!A1 = pool value #%d, DATA!A2 any of 8 pool values, %d of the %d listed output sets (of 20 formula outputs in two workbooks, either request order)' % (
                               a, len(mg), len(masks)))
         # whole-COLUMN references assemble a million cells per model (10 s and 2-5 GB a path): few paths
         for a in ((0,) if quick else (0, 4)):
